@@ -239,6 +239,29 @@ func runCheck(prop, tier string, seed int) int {
 			}
 		}
 	}
+	for i, g := range gooses {
+		if progs[i] == nil {
+			continue
+		}
+		n := 0
+		for _, l := range progs[i].Contracts.Lemmas {
+			if hasTag(l.Tags, prop) {
+				n++
+			}
+		}
+		if n == 0 {
+			continue
+		}
+		r := verifyLemmas(progs[i], prop)
+		if r.Err != "" {
+			rep.undecided = append(rep.undecided, "lemmas ("+g+"): "+firstLines(r.Err, 2))
+		}
+		for _, o := range r.Obligations {
+			all = append(all, o)
+			oblGOOS[o] = g
+		}
+		funcNames = append(funcNames, fmt.Sprintf("%d lemma(s) over the specification functions (%s)", n, g))
+	}
 	if len(funcs) == 0 {
 		rep.undecided = append(rep.undecided, "no function under contract serves "+prop)
 	}
